@@ -466,29 +466,32 @@ class AtomicSaver:
         return self.part_file
 
     def __exit__(self, exc_type, exc_val, exc_tb):
-        if self.part_file:
-            # Ensure data is flushed and synced to disk before closing
-            self.part_file.flush()
-            os.fsync(self.part_file.fileno())
-            self.part_file.close()
-        if exc_type:
-            if self.rm_part_on_exc:
-                try:
-                    os.unlink(self.part_path)
-                except Exception:
-                    pass  # avoid masking original error
-            return
         try:
-            atomic_rename(self.part_path, self.dest_path,
-                          overwrite=self.overwrite)
-        except OSError:
-            if self.rm_part_on_exc:
+            if self.part_file:
                 try:
-                    os.unlink(self.part_path)
-                except Exception:
-                    pass  # avoid masking original error
+                    # Ensure data is flushed and synced to disk before closing
+                    self.part_file.flush()
+                    os.fsync(self.part_file.fileno())
+                finally:
+                    self.part_file.close()
+            if not exc_type:
+                atomic_rename(self.part_path, self.dest_path,
+                              overwrite=self.overwrite)
+        except Exception:
+            self._rm_part_on_exc()
+            if exc_type:
+                return  # avoid masking original error
             raise  # could not save destination file
+        if exc_type:
+            self._rm_part_on_exc()
         return
+
+    def _rm_part_on_exc(self):
+        if self.rm_part_on_exc:
+            try:
+                os.unlink(self.part_path)
+            except Exception:
+                pass  # avoid masking original error
 
 
 def iter_find_files(directory, patterns, ignored=None, include_dirs=False, max_depth=None):
